@@ -1299,10 +1299,12 @@ class WorkflowConductor(object):
         # task rerun requests. If they are not collapsed/consolidated, then the rerun
         # will result in multiple branches of executions.
         if len(tasks) > 1:
-            # The for loops below identify task requests that have subsequent task sequences
-            # not in other task requests.
+            # Remove the task requests whose subsequent task sequence is part of the
+            # subsequent task sequence of another task request.
             result = {
-                k: i for k, i in result.items() for j in result.values() if len(set(i) - set(j)) > 0
+                k: i
+                for k, i in result.items()
+                if not any(set(i) < set(j) for j in result.values())
             }
 
         return result
